@@ -185,7 +185,10 @@ func (rn *runner) httpTransport(w *World, inputs [][]byte) {
 		}
 		var direct Obs
 		if s.method == "POST" {
-			direct = w.handle(s.body)
+			var ok bool
+			if direct, ok = rn.directOK(w, s.body, "http"); !ok {
+				continue
+			}
 		}
 		w.reset()
 		var o Obs
@@ -269,7 +272,7 @@ type wsClient struct {
 	url     string
 	conn    *websocket.Conn
 	n       int
-	timeout time.Duration // per exchange; 0 = 30 s
+	timeout time.Duration // per exchange; 0 = 10 s
 }
 
 func (c *wsClient) dial() error {
@@ -292,7 +295,7 @@ func (c *wsClient) exchange(msgs [][]byte) (got [][]byte, hung bool, err error) 
 	sentinel := fmt.Sprintf(`{"jsonrpc":"2.0","method":"noargs","id":%q}`, sentinelID)
 	to := c.timeout
 	if to == 0 {
-		to = 30 * time.Second
+		to = 10 * time.Second
 	}
 	ctx, cancel := context.WithTimeout(context.Background(), to)
 	defer cancel()
@@ -352,10 +355,21 @@ func (rn *runner) wsTransport(w *World, inputs [][]byte, sessions [][][]byte) {
 		return true
 	}
 	// 1. one message at a time: full oracle
+	hangs := 0
 	for _, in := range inputs {
-		direct := w.handle(in)
+		direct, ok := rn.directOK(w, in, "ws")
+		if !ok {
+			continue
+		}
+		if hangs >= 3 {
+			res.Note("websocket stage stopped after %d unanswered messages (each recorded as server-hangs)", hangs)
+			break
+		}
 		w.reset()
 		msgs, hung, err := c.exchange([][]byte{in})
+		if hung {
+			hangs++
+		}
 		var o Obs
 		switch {
 		case hung:
@@ -411,8 +425,13 @@ func (rn *runner) wsTransport(w *World, inputs [][]byte, sessions [][][]byte) {
 		var wantBatch []bool
 		var wantCalls []Call
 		answered := make([]bool, len(s))
+		crashes := false
 		for mi, m := range s {
-			d := w.handle(m)
+			d, ok := rn.directOK(w, m, "ws-session")
+			if !ok {
+				crashes = true
+				break
+			}
 			if len(d.Out) > 0 {
 				wantWire = append(wantWire, d.Out)
 				wantBatch = append(wantBatch, isBatchShaped(m))
@@ -420,8 +439,14 @@ func (rn *runner) wsTransport(w *World, inputs [][]byte, sessions [][][]byte) {
 			}
 			wantCalls = append(wantCalls, d.Calls...)
 		}
+		if crashes || hangs >= 3 {
+			continue
+		}
 		w.reset()
 		got, hung, err := c.exchange(s)
+		if hung {
+			hangs++
+		}
 		calls, _ := w.taken()
 		calls = dropSentinelCall(calls)
 		key := fmt.Sprintf("ws-session:%d:%x", len(s), bytes.Join(s, []byte{0}))
